@@ -120,3 +120,14 @@ CHECKS["C11"] = {
               {"name": "c11w", "pkg": ".", "overlay": "root", "run": "^TestVerifWiringC11$", "shards": 2}],
     "expect_checks": ["c11.release", "c11.pause-cancel", "c11.wiring"],
 }
+
+CHECKS["C17"] = {
+    "level": "exploration",
+    "technique": "property-based testing (rapid under testing/synctest fake time): generated workloads at the instant of cancellation (connections stalled mid-handshake, silent, idle keep-alive HTTP/1.1, handshake done but no request, HTTP/1.1 exchange in flight in a slow handler, idle and busy HTTP/2) x trigger (cancel, cancel twice, cancelled before Serve, net/http server stopping on its own) x connection attempts at drawn times after the cancel; oracle on Serve's return value and fake-time latency, listener state, backend log",
+    "rule": "case = workload + trigger + in-flight duration + post-cancel attempt times. Non-trivial = at least one HTTP/1.1 exchange in flight or one connection mid-handshake at the cancel; distinct by hash of the script.",
+    "level_text": "Generated schedules with barriers: Serve returns http.ErrServerClosed, not before a genuinely in-flight HTTP/1.1 exchange ends and within 2 s after it (10 s when there is none), listener closed, no post-cancel attempt served, idle/new/mid-handshake HTTP/1.1 connections closed.",
+    "level_note": _E2E_NOTE + " Schedule points are those reachable by quiescence barriers and fake-time sleeps, not arbitrary instruction interleavings; the pause-point variant (cancel between handshake and hand-over) lives in C11's c11.pause-cancel.",
+    "assumptions": ["'within seconds' is read as 10 s of fake time (net/http's Shutdown closes never-used connections after 5 s and polls with back-off)"],
+    "units": [{"name": "c17", "pkg": "c17", "run": "^Test", "shards": 8}],
+    "expect_checks": ["c17.shutdown"],
+}
